@@ -249,11 +249,15 @@ int cmdReplay(int argc, char** argv) {
 	for (size_t a = 0; a < lines.size(); a += chunk) {
 		size_t b = std::min(lines.size(), a + chunk);
 		std::string why;
+		long before = fileSize(outPath);
 		if (forkRun([&] { return runChunk(a, b); }, 120, why) != 0) {
-			// find the crashing call(s): one fork per case
+			// find the crashing call(s): one fork per case (what the crashed child had appended is dropped first)
+			cutBack(outPath, before);
 			for (size_t i = a; i < b; i++) {
 				std::string w2;
+				long b1 = fileSize(outPath);
 				if (forkRun([&] { return runChunk(i, i + 1); }, 30, w2) != 0) {
+					cutBack(outPath, b1);
 					crashes++;
 					FILE* f = fopen(outPath.c_str(), "a");
 					JV rec = jparse(lines[i]);
@@ -357,10 +361,14 @@ int cmdRandom(int argc, char** argv) {
 			fclose(f);
 			return 0;
 		};
+		long before = fileSize(outPath);
 		if (forkRun([&] { return fn(a, b); }, 120, why) != 0) {
+			cutBack(outPath, before);
 			for (size_t i = a; i < b; i++) {
 				std::string w2;
+				long b1 = fileSize(outPath);
 				if (forkRun([&] { return fn(i, i + 1); }, 30, w2) != 0) {
+					cutBack(outPath, b1);
 					crashes++;
 					FILE* f = fopen(outPath.c_str(), "a");
 					fprintf(f, "{\"e\":\"crash\",\"case\":%zu,\"c\":%s,\"why\":%s}\n", i, calls[i].c_str(), J::str(w2).s.c_str());
